@@ -622,22 +622,27 @@ fn run(ctx: &mut Ctx) {
             }
         }
     }
-    // root "/" with -maxdepth 0
+    // the root directory as starting point, spelled /, //, /. and /./, with -maxdepth 0: one run, one
+    // path, and under -execdir the run happens IN the root directory
     for execdir in [false, true] {
-        job += 1;
-        if !ctx.mine(job) {
-            continue;
-        }
-        let log = ctx.sbx.join(".mc-vrec.log");
-        let _ = std::fs::remove_file(&log);
-        let prim = if execdir { "-execdir" } else { "-exec" };
-        let argv: Vec<String> = vec!["/".into(), "-maxdepth".into(), "0".into(), prim.into(), vrec(), log.to_string_lossy().to_string(), "{}".into(), "+".into()];
-        let args: Vec<&str> = argv.iter().map(|s| s.as_str()).collect();
-        let got = run_find(&args);
-        let recs = vreclog::read(&log).unwrap_or_default();
-        ctx.rep.evaluations += 1;
-        if recs.len() != 1 || recs[0].args.len() != 1 || got.code != Ok(0) {
-            ctx.rep.violation(&format!("C08 starting point /: command not run exactly once with one path [{prim}]"), format!("find {:?}: {} invocations {:?}; {}", argv, recs.len(), recs.iter().map(|r| r.args.iter().map(|a| lossy(a)).collect::<Vec<_>>()).collect::<Vec<_>>(), got.brief()), json!({"prop":"C08","part":"slash","execdir":execdir}));
+        for spelling in ["/", "//", "/.", "/./"] {
+            job += 1;
+            if !ctx.mine(job) {
+                continue;
+            }
+            let log = ctx.sbx.join(".mc-vrec.log");
+            let _ = std::fs::remove_file(&log);
+            let prim = if execdir { "-execdir" } else { "-exec" };
+            let argv: Vec<String> = vec![spelling.into(), "-maxdepth".into(), "0".into(), prim.into(), vrec(), log.to_string_lossy().to_string(), "{}".into(), "+".into()];
+            let args: Vec<&str> = argv.iter().map(|s| s.as_str()).collect();
+            let _ = std::env::set_current_dir(&ctx.sbx);
+            let got = run_find(&args);
+            let recs = vreclog::read(&log).unwrap_or_default();
+            ctx.rep.evaluations += 1;
+            let cwd_ok = !execdir || recs.first().is_some_and(|r| r.cwd == b"/");
+            if recs.len() != 1 || recs[0].args.len() != 1 || got.code != Ok(0) || !cwd_ok {
+                ctx.rep.violation(&format!("C08 starting point {spelling}: command not run exactly once with one path{} [{prim}]", if execdir { " in the root directory" } else { "" }), format!("find {:?}: {} invocations {:?} cwd {:?}; {}", argv, recs.len(), recs.iter().map(|r| r.args.iter().map(|a| lossy(a)).collect::<Vec<_>>()).collect::<Vec<_>>(), recs.first().map(|r| lossy(&r.cwd)), got.brief()), json!({"prop":"C08","part":"slash","execdir":execdir}));
+            }
         }
     }
     // (iii) fault placements: d directories under r give 1+2d -execdir invocations; every subset fails
